@@ -7,6 +7,12 @@ impl ExecutableMemory {
     let size: usize = super::INITIAL_MEMORY_SIZE;
     #[cfg(gb_dynarec_verif)]
     let size: usize = crate::verif::arena_size().unwrap_or(size);
+    #[cfg(gb_dynarec_verif)]
+    if let Some(memory_area) = crate::verif::arena_take(size) {
+      return Self {
+        memory: Some(memory_area),
+      };
+    }
     let memory_area = unsafe {
       let pointer: *mut std::ffi::c_void = libc::mmap(
         std::ptr::null_mut(),
@@ -54,6 +60,11 @@ impl ExecutableMemory {
 impl Drop for ExecutableMemory {
   fn drop(&mut self) {
     let memory = self.memory.take().unwrap();
+    #[cfg(gb_dynarec_verif)]
+    let memory = match crate::verif::arena_recycle(memory) {
+      Some(memory) => memory,
+      None => return,
+    };
     let size = memory.len();
     unsafe {
       libc::munmap(
@@ -65,6 +76,10 @@ impl Drop for ExecutableMemory {
 }
 
 fn apply_protection(address: *mut (), size: usize, protection: i32) {
+  #[cfg(gb_dynarec_verif)]
+  if crate::verif::arena_is_pooled(address as usize) {
+    return;
+  }
   unsafe {
     let result = libc::mprotect(
       address as *mut std::ffi::c_void,
